@@ -84,13 +84,23 @@ func (vc *VC) selectField(st *State, x Term, name string) (Term, bool) {
 	for i := 0; i < stt.NumFields(); i++ {
 		if stt.Field(i).Name() == name {
 			ft := vc.ts.apply(stt.Field(i).Type())
-			return vc.mk("("+vc.u.fieldSel(s, name, i)+" "+x.S+")", ft), true
+			return vc.mk(vc.selFieldS(s, name, i, x.S), ft), true
 		}
 	}
 	return Term{}, false
 }
 
 // structUpdate returns x with field idx replaced.
+// selFieldS builds (field_i x), simplifying a selection from a constructor term.
+func (vc *VC) selFieldS(structSort, field string, i int, x string) string {
+	if pre := "(mk_" + structSort + " "; strings.HasPrefix(x, pre) {
+		if args := splitSExprArgs(x[len(pre) : len(x)-1]); i < len(args) {
+			return args[i]
+		}
+	}
+	return "(" + vc.u.fieldSel(structSort, field, i) + " " + x + ")"
+}
+
 func (vc *VC) structUpdate(x Term, idx int, v Term) Term {
 	stt := under(x.T).(*types.Struct)
 	s := vc.u.SortOf(x.T)
@@ -99,7 +109,7 @@ func (vc *VC) structUpdate(x Term, idx int, v Term) Term {
 		if i == idx {
 			parts[i] = v.S
 		} else {
-			parts[i] = "(" + vc.u.fieldSel(s, stt.Field(i).Name(), i) + " " + x.S + ")"
+			parts[i] = vc.selFieldS(s, stt.Field(i).Name(), i, x.S)
 		}
 	}
 	return vc.mk("(mk_"+s+" "+strings.Join(parts, " ")+")", x.T)
